@@ -79,19 +79,17 @@ Definition items_of_length_item (it : item) : option (list item) :=
     | None => Some [(None, Some (- pow10 (l - 2))); (Some (pow10 (l - 1)), None)]
     | Some u => Some [(Some (- (pow10 (u - 1) - 1)), Some (- pow10 (l - 2))); (Some (pow10 (l - 1)), Some (pow10 u - 1))]
     end.
-(* concatenation of the item texts, ", " for an item without limits, then rstrip(" ,"), then Range(text):
-   empty pieces in the middle are empty range items (ignored by the parser), so the unlimited item simply vanishes
-   unless nothing else is there *)
+(* an item without limits makes the function return Range("") at once; otherwise the item texts are joined and parsed *)
 Definition range_from_length (length_range : range) : lres' :=
   match length_range with
   | None => LAll
   | Some its =>
       if existsb length_item_bad its then LRangeError
+      else if existsb (fun it => match items_of_length_item it with None => true | Some _ => false end) its then LAll
       else
-        let parts := flat_map (fun it => match items_of_length_item it with Some l => l | None => [] end) its in
-        match parts with
+        match flat_map (fun it => match items_of_length_item it with Some l => l | None => [] end) its with
         | [] => LAll
-        | _ => LItems parts
+        | parts => LItems parts
         end
   end.
 
